@@ -45,6 +45,8 @@ CONNECTION  local_ip (source address, default 127.0.0.1; any 127.x.y.z works -- 
   127.0.0.2:P can be bound while 127.0.0.1:P is still connected), local_port (bind before connect, SO_REUSEADDR; default ephemeral), audit (record inserted
   under the local port BEFORE connecting), requests [req], pipelined (write all, then read),
   ops_before_connect, ops_before_close, timeout_ms
+  reset_after_connect (bool: close abortively -- SO_LINGER{on,0}, RST -- right after the handshake; no request is
+  sent; ops_before_close still run, e.g. wait_trace + snapshot; result connection has reset: true)
 REQUEST     raw (bytes), ops_before, ops_after, timeout_ms, split_at + split_pause_ms (two writes)
 OPS         {"op": "update_key", guid, key, incarnation} {"op": "clear_key"}
             {"op": "set_rules", "endpoint": "wireserver|imds|hostga", "item": {...}|None}
